@@ -241,7 +241,7 @@ def _close_common(u: U, w: World, ws, out, entry_closed, waiting_at_entry, which
 
 @unit("C13", "server.close", functions=[f"{SRV}:WebSocketResponse.close", f"{SRV}:WebSocketResponse._set_closed",
                                         f"{SRV}:WebSocketResponse._set_code_close_transport",
-                                        f"{SRV}:WebSocketResponse._close_transport"], timeout_ms=20000)
+                                        f"{SRV}:WebSocketResponse._close_transport"], timeout_ms=20000, also=("C18",))
 def server_close(u: U):
     """WebSocketResponse.close() from any state, with the other actors running at every await"""
     w = World(u, SRV, client=False)
@@ -255,7 +255,15 @@ def server_close(u: U):
     f = u.load(SRV, "WebSocketResponse.close", globals={"async_timeout": w.async_timeout})
     fn_id = "web_ws:WebSocketResponse.close"
     # the read loop of close(): cut - it only ends by CLOSE, timeout or an error
-    u.loop(fn_id, 0, inv=lambda L: [("in_timeout", w.depth == 1)], variant=None)
+    def entering_the_wait(L):
+        u.check("C13.server.close.one_deadline_for_the_whole_wait", w.depth == 1,
+                "the wait for the peer's CLOSE frame runs under ONE close-timeout deadline that spans all reads",
+                also_as=("C18.wsclose.server.one_deadline_for_the_whole_wait",))
+
+    u.loop(fn_id, 0, inv=lambda L: [("wait_loop", True)], variant=None, at_head=entering_the_wait,
+           at_back=lambda L: u.check("C13.server.close.deadline_still_spans_the_wait", w.depth == 1,
+                                     "going round the wait loop does not leave (and re-arm) the close timeout",
+                                     also_as=("C18.wsclose.server.deadline_not_rearmed",)))
     drain = u.choose(2, "drain") == 1
     out = u.call(f, ws, drain=drain)
     _close_common(u, w, ws, out, entry_closed, waiting, "server")
@@ -297,7 +305,7 @@ def server_close_peer_code(u: U):
 
 
 @unit("C13", "client.close", functions=[f"{CLI}:ClientWebSocketResponse.close", f"{CLI}:ClientWebSocketResponse._set_closed",
-                                        f"{CLI}:ClientWebSocketResponse._set_closing"], timeout_ms=20000)
+                                        f"{CLI}:ClientWebSocketResponse._set_closing"], timeout_ms=20000, also=("C18",))
 def client_close(u: U):
     """ClientWebSocketResponse.close() from any state, with the other actors running at every await"""
     w = World(u, CLI, client=True)
@@ -312,6 +320,10 @@ def client_close(u: U):
     fn_id = "client_ws:ClientWebSocketResponse.close"
     def entering_the_wait(L):
         # the loop that waits for the peer's CLOSE frame is about to run
+        u.check("C13.client.close.one_deadline_for_the_whole_wait", w.depth == 1,
+                "the wait for the peer's CLOSE frame runs under ONE close-timeout deadline that spans all reads: a peer "
+                "that keeps sending other frames cannot keep close() (and its connection) alive beyond ws_close",
+                also_as=("C18.wsclose.one_deadline_for_the_whole_wait",))
         if closing and ("other.closed",) not in w.log:
             u.check("C13.client.close.no_second_wait_after_peer_close", False,
                     "when the peer's CLOSE frame was already received (receive() has latched _closing and the peer's code - 0 "
@@ -319,7 +331,12 @@ def client_close(u: U):
                     "for a second CLOSE that will never come (and then report 1006)",
                     known=[("F13d", w.peer_code == 0)], witness={"peer_close_code": w.peer_code})
 
-    u.loop(fn_id, 0, inv=lambda L: [("timeout_spans_the_whole_wait", w.depth == 1)], at_head=entering_the_wait)
+    # (the invariant 'the close timeout spans the whole wait' is stated as the named obligation at the loop head - checked,
+    # then assumed - so that it is counted under both properties that rely on it)
+    u.loop(fn_id, 0, inv=lambda L: [("wait_loop", True)], at_head=entering_the_wait,
+           at_back=lambda L: u.check("C13.client.close.deadline_still_spans_the_wait", w.depth == 1,
+                                     "going round the wait loop does not leave (and re-arm) the close timeout",
+                                     also_as=("C18.wsclose.deadline_not_rearmed",)))
     out = u.call(f, ws)
     _close_common(u, w, ws, out, entry_closed, waiting, "client")
     if entry_closed:
